@@ -8,9 +8,14 @@ cd /verif || exit 2
 if [ -n "$(git -C /repo status --porcelain)" ]; then echo "/repo is not clean"; exit 2; fi
 git -C /repo apply "$PATCH" || { echo "patch does not apply"; exit 2; }
 LOG=$(mktemp /tmp/try.XXXXXX)
+# the evidence file and replays written by a run against a seeded change say nothing about /repo:
+# keep the committed evidence, drop the replays
+EV=$(mktemp /tmp/try.ev.XXXXXX); cp "evidence/$ID.json" "$EV" 2>/dev/null
 ./check "$ID" "$TIER" "$@" >"$LOG" 2>&1
 rc=$?
 git -C /repo checkout -- . ; git -C /repo clean -fdq
+[ -s "$EV" ] && cp "$EV" "evidence/$ID.json"; rm -f "$EV"
+git -C /verif clean -fdq replays
 echo "exit $rc"
 grep -E "^(VIOLATION|KNOWN-FINDING|NONDETERMINISM|INFRA)" "$LOG" | cut -c1-200
 grep -E "^  signature:" "$LOG" | sort | uniq -c | cut -c1-200
